@@ -113,7 +113,8 @@ def c08_3(ctx, ss):
             sites = builder_sites(ff, flow, a.id)
             srcs = [args[0] for st, m, args in sites if m == "append"]
             if not srcs:
-                raise AnchorMissing("_add_decays_to_be_copied: builder of the copied list not understood")
+                ctx.violation("C08.3", ckey(ff, None, "added"), where(ff, c), "no copied table is ever collected: CopyDecay statements add nothing")
+                continue
         else:
             srcs = [a]
         for s in srcs:
@@ -133,14 +134,29 @@ def c08_3(ctx, ss):
         k = ckey(ff, None, "rename")
         if r == ("fresh", "deepcopy"):
             ctx.holds("C08.3", k, where(ff, w.node), "the mother name is rewritten on the deep copy", 1)
+            from ..core.larkfacts import grammar_facts
+            from ..core.treetypes import TreeTyper
+            tt = TreeTyper(grammar_facts(ss, "data/decfile.lark"))
+            tgt = [t for t in w.node.targets][0]
+            base = tgt
+            while isinstance(base, (ast.Attribute, ast.Subscript)):
+                base = base.value
+            val = tt.check(tgt, {base.id: tt.tree("decay")}) if isinstance(base, ast.Name) else None
+            okt = val is not None and not tt.errors and val.sig() == "decay/0:particle/0:LABEL"
+            (ctx.holds if okt else ctx.violation)("C08.3", k + " :: where", where(ff, w.node),
+                                                  "the rewritten token is the mother's LABEL (decay/0:particle/0:LABEL)" if okt
+                                                  else f"the rename writes `{val.sig() if val is not None else '?'}` {tt.errors[:1]}, not the mother name of the copied table")
         else:
             ctx.violation("C08.3", k, where(ff, w.node), f"the mother rename writes into an object that is not the deep copy ({r[0]} {r[1]}): the SOURCE table is renamed")
     # source lookup by name -> position of the same list
     ok = False
     for c in pf.calls_in(ff.node):
         if txt(c.func) in ("copy.deepcopy", "deepcopy") and c.args:
-            t = flow.text(c.args[0])
-            if t.startswith("self._parsed_decays[") and "__elem__(self.dict_decays2copy().items())[1]" in t:
+            import re as _re
+            t = _re.sub(r" for [\w, ()]+ in ", " for _ in ", flow.text(c.args[0]))
+            E = "__elem__(enumerate(self._parsed_decays))"
+            want = f"self._parsed_decays[{{{E}[1].children[0].children[0].value: {E}[0] for _ in enumerate(self._parsed_decays)}}[__elem__(self.dict_decays2copy().items())[1]]]"
+            if t == want:
                 ok = True
     (ctx.holds if ok else ctx.violation)("C08.3", ckey(ff, None, "source"), where(ff, ff.node),
                                           "the source of a copy is the table named by the statement's second label" if ok
